@@ -1,5 +1,6 @@
 import Ufo2ftModel.Drv.GeomJ
 import Ufo2ftModel.Spec.C02
+import Ufo2ftModel.Spec.Good
 namespace Ufo2ft.Drv.C02
 open Lean Ufo2ft Ufo2ft.Drv Ufo2ft.C02
 
@@ -75,7 +76,7 @@ def font (req : Json) : R Reply := do
       let smp := maxp shadow
       let okMaxp := oel == smp.maxComponentElements && odp == smp.maxComponentDepth
       if !okMaxp then bad := bad ++ ["<maxp>"]
-      return { model, holds := bad.isEmpty, info := strsJ bad }
+      return { model, holds := bad.isEmpty, info := strsJ bad, hyp := Json.bool (goodCert gs (depthCert gs)) }
 
 def handle (op : String) (req : Json) : R Reply :=
   match op with
